@@ -35,6 +35,12 @@ var c19Pool = []string{
 	// statements with an effect outside the result: debug prints
 	"set f to transform debug 'T:' + match debug matchLength return match + '!' end\nreplace all at least 1 letter with f",
 	"set p to pattern at least 1 digit begin debug 'P:' + match return matchLength < 3 end\nfind all p",
+	// process code that ends without a return (3, 5, 6 and 7 top-level statements; the default result applies)
+	"set f to transform set a to match set b to a + '1' set c to b + a end\nreplace all at least 1 letter with '[' f ']'",
+	"set f to transform set a to match set b to a + '1' set c to b + a set d to c + '2' if d == 'x' then return 'X' end end\nreplace all at least 1 digit with f",
+	"set f to transform set a to 1 set b to a + 1 set c to b + a set d to c + 2 set e to d * 2 set g to e - 1 end\nreplace all 'a' with f '.'",
+	"set f to transform set a to 1 set b to a + 1 set c to b + a set d to c + 2 set e to d * 2 set g to e - 1 set h to g + matchLength end\nreplace all 'b' with f f",
+	"set p to pattern at least 1 digit begin set a to match set b to a + 1 set c to b end\nfind all p",
 	// compilations that FAIL (in the lexer, the parser, the regex sub-parser, the generator, the type checker) run
 	// concurrently with the others: an error path must leave nothing shared behind either
 	"find all 'unterminated",
